@@ -75,6 +75,20 @@ func Run(prop, tier string) int {
 			sum.Clauses["commit_then_uncommit_cases(engine K product through the real keeper)"] = n2
 			sum.Violations = append(sum.Violations, fs2...)
 		}
+		if genesisRTProps[prop] && os.Getenv("VERIF_ONLY_PHASE") == "" {
+			b := cfg.Deadline / 3
+			gs, gv := genesisRTAll(prop, tier, b)
+			sum.Clauses["genesis_round_trips(state exported, fresh application started from the export, 2 more blocks)"] = gs.Clauses["genesis_round_trips"]
+			if n := gs.Clauses["state_not_importable"]; n > 0 {
+				sum.Clauses["genesis_round_trips_where_the_export_could_not_be_imported(not judged)"] = n
+			}
+			sum.Transitions += gs.Evaluations
+			sum.Violations = append(sum.Violations, gv...)
+			sum.HarnessErrs = append(sum.HarnessErrs, gs.HarnessErrs...)
+			if !gs.Exhaustive {
+				sum.Exhaustive = false
+			}
+		}
 		return Conclude(cfg, sum)
 	}
 	if f, ok := OtherEngines[prop]; ok {
